@@ -282,7 +282,9 @@ Definition obj_iter (t : table) : list (key * val) := entries (slots t) (lh_walk
 
 (* lh_foreach_safe(t, e, tmp) { if (p(e->k)) lh_table_delete_entry(t, e); }  and
    json_object_object_foreach(o, k, v) { if (p(k)) json_object_object_del(o, k); }  (bykey):
-   the next link is fetched before the body runs.  Result: the entries seen, and the
+   the next link is fetched before the body runs.  json_object.h defines the object macro
+   twice (GNU statement-expression form; portable form for strict ISO C / MSVC): both are
+   this walk, and the correspondence drives both (ops x and y, harness/drv_lh_ansi.c).  Result: the entries seen, and the
    table afterwards; None when the walk reaches a slot without key or deletes through
    a NULL link. *)
 Fixpoint foreach_del (fuel : nat) (bykey : bool) (p : key -> bool) (t : table) (cur : Z)
